@@ -413,7 +413,7 @@ def replay_once(engine, variant, rec, scratch):
     if engine == "miri-seq":
         from . import props as P
         m = rec.get("miri", {})
-        rc, out, err = P.miri_seq_run(m.get("args", []), m.get("seed", 0))
+        rc, out, err = P.miri_seq_run(m.get("args", []), m.get("seed", 0), pkg=m.get("pkg", "seq"))
         kinds, vs = [], []
         for line in out.splitlines():
             if line.startswith("{") and '"violation"' in line:
